@@ -374,15 +374,23 @@ RMetaP(c, st) == st.status = 1 => st.meta = (IF c.pre = "match" THEN "pre" ELSE 
 RCompressP(c, st) == st.status = 1 => st.files \cap {"bin", "cbin", "ch"} = (IF c.compress THEN {"cbin", "ch"} ELSE {"bin"})
 
 ReconInit == s \in {[c |-> c, st |-> ReconStart(c)] : c \in ReconCases}
-RAct(from) == Part = "recon" /\ s.st.pc = from /\ s' = [s EXCEPT !.st = ReconStep(s.c, s.st)]
-ReconConstruct == RAct("new")
-ReconPrepare == RAct("constructed")
-ReconParams == RAct("prepared")
-ReconWrite == RAct("params")
-ReconMeta == RAct("reconstructed")
-ReconCompressOrReturn == RAct("metadata")
-ReconReturn == RAct("compressed")
-ReconNext == ReconConstruct \/ ReconPrepare \/ ReconParams \/ ReconWrite \/ ReconMeta \/ ReconCompressOrReturn \/ ReconReturn
+\* one action per method of process() and per branch taken (the step itself is ReconStep, so that the exported paths are the same function)
+RStepFrom(from) == Part = "recon" /\ s.st.pc = from
+RAfter == [s EXCEPT !.st = ReconStep(s.c, s.st)]
+ReconConstruct == RStepFrom("new") /\ s' = RAfter
+ReconPrepareRaise == RStepFrom("constructed") /\ s.c.k = 0 /\ s' = RAfter
+ReconPrepareNot24 == RStepFrom("constructed") /\ s.c.k > 0 /\ s.c.kind # "NP2.4" /\ s' = RAfter
+ReconPrepareCount == RStepFrom("constructed") /\ s.c.k > 0 /\ s.c.kind = "NP2.4" /\ s.c.k # s.c.nsh /\ s' = RAfter
+ReconPrepareOk == RStepFrom("constructed") /\ s.c.k > 0 /\ s.c.kind = "NP2.4" /\ s.c.k = s.c.nsh /\ s' = RAfter
+ReconParams == RStepFrom("prepared") /\ s' = RAfter
+ReconWrite == RStepFrom("params") /\ s' = RAfter
+ReconMetaKeep == RStepFrom("reconstructed") /\ ("meta" \in s.st.files /\ s.c.pre = "match") /\ s' = RAfter
+ReconMetaWrite == RStepFrom("reconstructed") /\ ~("meta" \in s.st.files /\ s.c.pre = "match") /\ s' = RAfter
+ReconCompress == RStepFrom("metadata") /\ s.c.compress /\ s' = RAfter
+ReconReturnPlain == RStepFrom("metadata") /\ ~s.c.compress /\ s' = RAfter
+ReconReturn == RStepFrom("compressed") /\ s' = RAfter
+ReconNext == ReconConstruct \/ ReconPrepareRaise \/ ReconPrepareNot24 \/ ReconPrepareCount \/ ReconPrepareOk \/ ReconParams \/ ReconWrite
+             \/ ReconMetaKeep \/ ReconMetaWrite \/ ReconCompress \/ ReconReturnPlain \/ ReconReturn
 RFin == Part = "recon" /\ ReconFinal(s.st)
 RNot24 == RFin => RNot24P(s.c, s.st)
 RCount == RFin => RCountP(s.c, s.st)
@@ -452,14 +460,14 @@ LWithP(a, obs, hafter) == (a = "enter" /\ obs = "ok") => hafter = "live"
 
 ReaderInit == s \in {[kind |-> k, open |-> o, st |-> RdNew(k, o), n |-> 0, a |-> "new", obs |-> "ok", everb |-> FALSE] :
                         k \in ReaderKinds, o \in BOOLEAN}
-RdAct(a) == /\ Part = "reader" /\ s.n < MaxLen /\ s.obs # "DANGER"
-            /\ LET r == RdCall(s.st, a) IN s' = [s EXCEPT !.st = r[1], !.n = @ + 1, !.a = a, !.obs = r[2], !.everb = s.st.ever]
-ReaderOpen == RdAct("open")
-ReaderClose == RdAct("close")
-ReaderEnter == RdAct("enter")
-ReaderExit == RdAct("exit")
-ReaderRead == RdAct("read")
-ReaderIsOpen == RdAct("isopen")
+RdGuard == Part = "reader" /\ s.n < MaxLen /\ s.obs # "DANGER"
+RdAfter(a) == LET r == RdCall(s.st, a) IN [s EXCEPT !.st = r[1], !.n = @ + 1, !.a = a, !.obs = r[2], !.everb = s.st.ever]
+ReaderOpen == RdGuard /\ s' = RdAfter("open")
+ReaderClose == RdGuard /\ s' = RdAfter("close")
+ReaderEnter == RdGuard /\ s' = RdAfter("enter")
+ReaderExit == RdGuard /\ s' = RdAfter("exit")
+ReaderRead == RdGuard /\ s' = RdAfter("read")
+ReaderIsOpen == RdGuard /\ s' = RdAfter("isopen")
 ReaderNext == ReaderOpen \/ ReaderClose \/ ReaderEnter \/ ReaderExit \/ ReaderRead \/ ReaderIsOpen
 LOn == Part = "reader" /\ s.obs # "DANGER"
 LCtor == (LOn /\ s.a = "new") => LCtorP(s.kind, s.open, s.st.h, IsOpenVal(s.st))
